@@ -178,6 +178,40 @@ def run(ctx):
                                                               'len(self.line) > 0') for n in line_ifs)
     ctx.ob('T19.line', tf.fq, 'the source line is emitted only when it is non-empty (truthiness test; the interpreter prints nothing '
            'for a frame without source)', ok, loc=loc(tf, line_ifs[0]) if line_ifs else tf.loc, detail=[txt(n.test) for n in line_ifs].__repr__())
+    # sibling constructors give the deferred line the frame's module globals (needed for loader-backed sources)
+    for name, gl in (('from_tb', 'f_globals'), ('from_frame', 'f_globals')):
+        cf = prog.func('tbutils.Callpoint.' + name)
+        dl = [n for n in ast.walk(cf.node) if isinstance(n, ast.Call) and call_name(n) == '_DeferredLine']
+        if not dl:
+            ctx.unknown('T25.globals', cf.fq, 'no _DeferredLine(...) construction found', cf.loc)
+            continue
+        ok = all(len(n.args) + len(n.keywords) >= 3 and gl in ast.unparse(n) for n in dl)
+        ctx.ob('T25.globals', cf.fq, 'the source line is looked up with the frame\'s module globals (as its sibling constructor and the '
+               'traceback module do)', ok, loc=loc(cf, dl[0]), detail=txt(dl[0]))
+    # the frame patterns accept any path / function text and digits for the line number
+    import re._parser as sre_parse
+    import re._constants as sre_c
+    for rname in ('_frame_re', '_se_frame_re'):
+        pt, fl, nd, at = module_regex(prog, 'tbutils', rname)
+        pp = sre_parse.parse(pt)
+        gnames = {v: k for k, v in pp.state.groupdict.items()}
+        for op, av in pp:
+            if op is sre_c.SUBPATTERN:
+                g = gnames.get(av[0])
+                body = list(av[3])
+                kind = None
+                if len(body) == 1 and body[0][0] in (sre_c.MAX_REPEAT, sre_c.MIN_REPEAT) and len(body[0][1][2]) == 1:
+                    inner = body[0][1][2][0]
+                    if inner[0] is sre_c.ANY:
+                        kind = 'any'
+                    elif inner[0] is sre_c.IN and inner[1] == [(sre_c.CATEGORY, sre_c.CATEGORY_DIGIT)]:
+                        kind = 'digits'
+                    else:
+                        kind = 'restricted'
+                want = 'digits' if g == 'lineno' else 'any'
+                ctx.ob('T12.groups', 'tbutils.' + rname, 'group %s accepts %s' % (g, 'decimal digits' if want == 'digits' else
+                       'any text (paths and names may contain quotes, spaces, non-ASCII)'), kind == want,
+                       loc='%s:%d' % (mod.relpath, nd.lineno), detail='group body is %s' % kind)
     # _DeferredLine.__str__: checkcache before getline
     ds = prog.func('tbutils._DeferredLine.__str__')
     ci = prog.cls('tbutils._DeferredLine')
